@@ -27,6 +27,16 @@ _WIDTH_MSG = re.compile(r"bitwidth|too wide|too narrow|not a valid binop operand
 def exc_category(e):
     if isinstance(e, ValueError) and _WIDTH_MSG.search(str(e)):
         return "width"
+    if isinstance(e, AssertionError):
+        # trunc / zext / sext (datatypes/helpers.py) state their bitwidth requirement as an assert
+        tb, last = e.__traceback__, None
+        while tb is not None:
+            last, tb = tb, tb.tb_next
+        if last is not None and last.tb_frame.f_code.co_name in ("trunc", "zext", "sext") \
+                and last.tb_frame.f_code.co_filename.replace("\\", "/").endswith("datatypes/helpers.py") \
+                and isinstance(last.tb_frame.f_locals.get("value"), object) \
+                and hasattr(last.tb_frame.f_locals.get("value"), "nbits"):
+            return "width"
     return "other"
 
 
@@ -448,13 +458,27 @@ class Runtime:
                 b = max(1, int(v).bit_length())
                 self.ints[i] = b if self.ints[i] is None else max(self.ints[i], b)
 
-    def eval_node(self, nid, env):
-        """evaluate node nid (1-based) after its children; returns False if something raised"""
+    def eval_node(self, nid, env, quiet=False):
+        """evaluate node nid (1-based) after its children; returns False if something raised.
+        quiet: the node lies in a branch of an if-expression that is not taken in this run: its width
+        is still recorded, but an exception there is not an exception of the block"""
         i = nid - 1
-        for kd in self.kids[i]:
-            if not self.eval_node(kd, env):
-                return False
         n = self.c.nodes[i]
+        if n["k"] == "ifexp":
+            if not self.eval_node(n["c"], env, quiet):
+                return False
+            ccode = self._compiled(n["c"] - 1)
+            try:
+                taken = bool(eval(ccode, env)) if ccode is not None else bool(self.c.rn[n["c"] - 1].value)  # noqa: S307
+            except Exception:                # noqa: BLE001
+                return False
+            for br, live in ((n["a"], taken), (n["b"], not taken)):
+                if not self.eval_node(br, env, quiet or not live) and live:
+                    return False
+        else:
+            for kd in self.kids[i]:
+                if not self.eval_node(kd, env, quiet):
+                    return False
         if n["k"] == "tmpdef":
             return True
         code = self._compiled(i)
@@ -466,10 +490,11 @@ class Runtime:
         try:
             v = eval(code, env)              # noqa: S307
         except Exception as e:               # noqa: BLE001
-            if self.excs[i] is None:
-                self.excs[i] = e
-            if self.raised is None:
-                self.raised = e
+            if not quiet:
+                if self.excs[i] is None:
+                    self.excs[i] = e
+                if self.raised is None:
+                    self.raised = e
             return False
         self._record(i, v)
         return True
